@@ -269,6 +269,8 @@ class Gen:
             return None
         if not self.ok_val(out):
             return None
+        if out.size == 0 and not self.cfg.get("allow_empty"):
+            return None
         h = self.new_h()
         spell = spell or self.choice(od.spellings)
         ev = {"k": "op", "op": op, "out": h, "args": refs, "p": p, "spell": spell}
